@@ -582,6 +582,42 @@ func forwards(repo, dir, method, msgType, internal string) {
 	}
 }
 
+// loadOutsideTransaction: response memory is reserved inside ResponseStream.Transaction closures; the
+// block load (a call of a struct field of type BlockReadOpener, or of loadBlock) must not sit
+// lexically inside one, so that no reservation is held across the user's storage function.
+func loadOutsideTransaction(repo, dir string) {
+	p := loadPkg(repo, dir)
+	loads := 0
+	for _, fd := range p.funcs {
+		ast.Inspect(fd.Body, func(n ast.Node) bool {
+			c, ok := n.(*ast.CallExpr)
+			if !ok {
+				return true
+			}
+			if nm := finalName(c.Fun); nm == "Loader" || nm == "loadBlock" {
+				loads++
+			}
+			if finalName(c.Fun) != "Transaction" {
+				return true
+			}
+			for _, a := range c.Args {
+				ast.Inspect(a, func(m ast.Node) bool {
+					if ic, ok := m.(*ast.CallExpr); ok {
+						if nm := finalName(ic.Fun); nm == "Loader" || nm == "loadBlock" || nm == "runTraversal" {
+							die(ic.Pos(), "%s: the block load now runs inside a response Transaction (response memory may be reserved across the user's storage function)", dir)
+						}
+					}
+					return true
+				})
+			}
+			return true
+		})
+	}
+	if loads < 2 {
+		die(token.NoPos, "%s: expected a call of ResponseTask.Loader and of loadBlock, found %d", dir, loads)
+	}
+}
+
 func leanItems(ls [][]item) string {
 	var lv []string
 	for _, l := range ls {
@@ -610,6 +646,7 @@ func main() {
 	taskDoneFirst(repo, "requestmanager", "releaseRequestTask")
 	forwards(repo, "responsemanager", "FinishTask", "finishTaskRequest", "finishTask")
 	taskDoneFirst(repo, "responsemanager", "finishTask")
+	loadOutsideTransaction(repo, "responsemanager/queryexecutor")
 	var sb strings.Builder
 	sb.WriteString("/-\nGenerated by translate/paniccleanup from requestmanager/executor, responsemanager/queryexecutor and\nipldutil/traverser.go - do not edit.\n\n")
 	sb.WriteString("`requestor` / `responder`: for each function on the call path from the recovered traversal function\n")
@@ -625,6 +662,7 @@ func main() {
 	sb.WriteString("def responder : List (List Item) := " + leanItems(resp) + "\n\n")
 	sb.WriteString("inductive TravAct\n  | writeDoneOnPanic   -- if err := panicHandler(recover()); err != nil { writeDone(err) }  (writeDone unlocks stateMu)\n  | closeStopped       -- close(t.stopped)\n  deriving DecidableEq, Repr\n\n")
 	sb.WriteString("def travFrame : List TravAct := [." + strings.Join(trav, ", .") + "]\n\n")
+	sb.WriteString("/-- checked by the translator: the responder's block load is not lexically inside a response\nTransaction closure (where response memory is reserved) -/\ndef loadOutsideTransaction : Bool := true\n\n")
 	sb.WriteString("end GS.Generated.PanicCleanup\n")
 	fmt.Print(sb.String())
 }
